@@ -176,3 +176,87 @@ func runHistory() {
 		})
 	chk.Sample("writer history", hcase{"1d:Code128", []hcall{{0, 0, 0, "margin0"}, {0, 0, 0, "none"}}})
 }
+
+// ---------------------------------------------------------------- one hints map, several writers
+
+type sharedCase struct {
+	Kind    string // "shared-hints"
+	Hint    string
+	Writers []string
+	W, H    int
+}
+
+func copyHints(h map[gozxing.EncodeHintType]interface{}) map[gozxing.EncodeHintType]interface{} {
+	if h == nil {
+		return nil
+	}
+	c := map[gozxing.EncodeHintType]interface{}{}
+	for k, v := range h {
+		c[k] = v
+	}
+	return c
+}
+
+// runSharedHints: a caller that builds ONE hints map and hands it to several writers in turn (the
+// usual way to configure a batch) must get, from every call, the image it would get with a private
+// copy of the map as the caller built it: a writer that records something in the caller's map
+// changes the geometry of whatever is written next.
+func runSharedHints() {
+	labels := []string{"empty", "ecH", "rect", "setC", "margin3", "margin20"}
+	sizes := [][2]int{{0, 0}, {157, 31}}
+	type job struct{ a, b int }
+	var jobs []job
+	for a := range hwriters {
+		for b := range hwriters {
+			jobs = append(jobs, job{a, b})
+		}
+	}
+	third := chk.Pick(0, len(hwriters))
+	chk.Range(fmt.Sprintf("one hints map shared by several writers: every ordered pair of the 11 writers (thorough: every ordered triple) x 6 initial maps (empty, QR level+mask, DM shape, Code 128 set, MARGIN int, MARGIN string) x 2 sizes: every image == the image written with a private copy of the map as the caller built it"), len(jobs),
+		func(i int) string { return fmt.Sprint(hwriters[jobs[i].a].name, " then ", hwriters[jobs[i].b].name) },
+		func(l *mc.Local, i int) {
+			j := jobs[i]
+			seqs := [][]int{{j.a, j.b}}
+			for c := 0; c < third; c++ {
+				seqs = append(seqs, []int{j.a, j.b, c})
+			}
+			for _, seq := range seqs {
+				for _, label := range labels {
+					for _, sz := range sizes {
+						shared := hintSet(label)
+						var names []string
+						for _, w := range seq {
+							names = append(names, hwriters[w].name)
+						}
+						cs := sharedCase{"shared-hints", label, names, sz[0], sz[1]}
+						for k, w := range seq {
+							hw := hwriters[w]
+							var got, want *gozxing.BitMatrix
+							var gotErr, wantErr error
+							pm, site := mc.Guard(func() {
+								want, wantErr = hw.mk().Encode(hw.contents[0], hw.format, sz[0], sz[1], copyHints(hintSet(label)))
+								got, gotErr = hw.mk().Encode(hw.contents[0], hw.format, sz[0], sz[1], shared)
+							})
+							l.Count("evaluations", 1)
+							if pm != "" {
+								chk.Violation("C14/panic/"+site+"/shared-hints", fmt.Sprintf("%v with one shared %s hints map: panic %s", names, label, pm), cs)
+								break
+							}
+							if (gotErr != nil) != (wantErr != nil) || !sameMatrix(got, want) {
+								desc := "differs"
+								if got != nil && want != nil {
+									desc = fmt.Sprintf("is %dx%d, with a private copy of the map %dx%d", got.GetWidth(), got.GetHeight(), want.GetWidth(), want.GetHeight())
+								}
+								chk.Violation("C14/"+hw.name+"/shared-hints-map", fmt.Sprintf("writers %v called in turn with ONE %q hints map (size %dx%d): the image of call %d (%s) %s (error now=%v, private=%v); map now %v", names, label, sz[0], sz[1], k+1, hw.name, desc, gotErr != nil, wantErr != nil, shared), cs)
+								break
+							}
+							if k > 0 && got != nil {
+								l.Distinct("nontrivial", fmt.Sprint("shared", names[:k+1], label, sz))
+							}
+						}
+					}
+				}
+			}
+		})
+	chk.Sample("shared hints", sharedCase{"shared-hints", "empty", []string{"1d:Code39", "1d:EAN-8"}, 0, 0})
+}
